@@ -1,6 +1,7 @@
 """Worker entry point: python -m vf.worker PROP TIER SEED SHARD NSHARDS OUT [REPLAY]."""
 import faulthandler
 import json
+import os
 import sys
 
 
@@ -27,6 +28,11 @@ def main():
       only = json.load(f)['case']
   harness.run_shard(prop, tier, int(seed), int(shard), int(nshards), out,
                     only_case=only)
+  # The summary is written.  A thread of the code under test that never returns
+  # (that is a verdict some checks report) must not keep this process alive.
+  sys.stdout.flush()
+  sys.stderr.flush()
+  os._exit(0)
 
 
 if __name__ == '__main__':
